@@ -15,16 +15,17 @@
 package core
 
 import (
-	"syscall"
 	"bufio"
 	"encoding/json"
 	"fmt"
 	"hash/fnv"
 	"os"
+	"runtime"
 	"sort"
 	"strconv"
 	"strings"
 	"sync/atomic"
+	"syscall"
 	"time"
 )
 
@@ -59,6 +60,9 @@ type Ctx struct {
 	recycle  bool
 	deadline time.Time
 }
+
+// heapRecycleLimit: live heap (bytes) above which a worker hands the rest of its shard to a fresh process.
+var heapRecycleLimit = uint64(envInt("VF_HEAP_RECYCLE_MB", 2048)) << 20
 
 func envInt(k string, d int) int {
 	if v := os.Getenv(k); v != "" {
@@ -203,6 +207,19 @@ func (c *Ctx) Case(name string, fn func()) bool {
 			c.next = n
 		}
 		return false
+	}
+	// dead instances of earlier cases leave parked goroutines and their buffers behind: when the live
+	// heap has grown past the limit the rest of this shard is continued by a fresh worker process
+	if c.ran > 0 && c.Only < 0 && heapBytes() > heapRecycleLimit {
+		runtime.GC()
+		if heapBytes() > heapRecycleLimit {
+			c.recycle = true
+			if c.next < 0 {
+				c.next = n
+			}
+			c.counts["heap_recycles"]++
+			return false
+		}
 	}
 	c.cur, c.curName = n, name
 	CurrentCase.Store(name)
